@@ -982,3 +982,226 @@ func init() {
 		props["C03"].Quick = append(props["C03"].Quick, c01R14)
 	})
 }
+
+// ---- C03.R13: map literals are always checked ---------------------------------------------------------------
+
+func init() {
+	lateInits = append(lateInits, func() {
+		props["C03"].Quick = append(props["C03"].Quick, c03R13)
+		props["C11"].Quick = append(props["C11"].Quick, c03R13)
+		props["C03"].Explanation += " (R13) checkCompositeLit hands every key/value literal whose expected type is a map to checkMapLiteral; the call does not depend on the syntactic form of the keys."
+	})
+}
+
+func c03R13(c *Ctx, r *Report) {
+	const rule = "C03.R13"
+	r.Describe(rule, "typechecker.checkCompositeLit: inside the MapType branch the call of checkMapLiteral is not guarded by a condition derived from a type assertion on the keys (IdentifierExpr)")
+	fn := c.LookupFn(pkgTC, "checkCompositeLit")
+	cml := c.LookupFn(pkgTC, "checkMapLiteral")
+	if !r.Anchor(rule, fn != nil && cml != nil, "typechecker.checkCompositeLit / checkMapLiteral") {
+		return
+	}
+	info := fn.Info()
+	n := 0
+	walkWithStack(fn.Decl.Body, func(x ast.Node, stack []ast.Node) bool {
+		cl, ok := x.(*ast.CallExpr)
+		if !ok || !isCallTo(info, cl, cml.Obj) {
+			return true
+		}
+		n++
+		// the innermost enclosing branch that belongs to the map case
+		var mapBranch *ast.IfStmt
+		for _, a := range stack {
+			if ifs, ok := a.(*ast.IfStmt); ok && ifs.Init != nil && strings.Contains(exprStr0(ifs.Init)+nodeText(ifs.Init), "MapType") {
+				mapBranch = ifs
+			}
+		}
+		bad := ""
+		if mapBranch != nil {
+			ast.Inspect(mapBranch.Body, func(y ast.Node) bool {
+				if ta, ok := y.(*ast.TypeAssertExpr); ok && ta.Type != nil && strings.HasSuffix(exprStr(ta.Type), "IdentifierExpr") && ta.Pos() < cl.Pos() {
+					bad = exprStr(ta)
+				}
+				return true
+			})
+		}
+		r.Check(bad == "", rule, fn.Name(), "map literals are checked whatever their keys look like", c.pos(cl.Pos()),
+			"whether a map literal is checked depends on the syntactic form of its keys ("+bad+"): `{ k => v }` with identifier keys is skipped, so a value of a wider type is stored without a cast (i64 5000000000 into map[str]i32 gives 705032704) and a private field may be read in the value position")
+		return true
+	})
+	r.Floor(rule, n, 1, "checkMapLiteral call sites in checkCompositeLit")
+}
+
+func nodeText(n ast.Node) string {
+	if as, ok := n.(*ast.AssignStmt); ok && len(as.Rhs) == 1 {
+		return exprStr(as.Rhs[0])
+	}
+	return ""
+}
+
+// ---- C13.R16: the collector reaches every nested expression ---------------------------------------------------
+
+func init() {
+	lateInits = append(lateInits, func() {
+		props["C13"].Quick = append(props["C13"].Quick, c13R16)
+		props["C13"].Explanation += " (R16) the symbol collector's expression walk has a case for every ast expression type that contains expressions, and the collectors of if, while and for walk the condition / range: a function literal or catch handler anywhere in an expression gets its scope (a missing scope is a nil interface conversion in the resolver)."
+	})
+}
+
+var c13R16Reviewed = map[string]string{
+	"KeyValueExpr": "never reached as an expression of its own: the CompositeLit case walks the key and the value of each element",
+	"ForkExpr":     "no parser production builds a ForkExpr",
+}
+
+func c13R16(c *Ctx, r *Report) {
+	const rule = "C13.R16"
+	r.Describe(rule, "collector.collectExpr: type switch cases ⊇ the ast.Expression implementers that have a field of type Expression / []Expression (Ident-like leaves and type nodes excepted); collectIfStmt, collectWhileStmt and collectForStmt call collectExpr")
+	const pkgColl = "internal/semantics/collector"
+	ce := c.LookupFn(pkgColl, "collectExpr")
+	exprT := c.lookupType("internal/frontend/ast", "Expression")
+	if !r.Anchor(rule, ce != nil && exprT != nil, "collector.collectExpr / ast.Expression") {
+		return
+	}
+	iface, _ := exprT.Type().Underlying().(*types.Interface)
+	if !r.Anchor(rule, iface != nil, "ast.Expression is an interface") {
+		return
+	}
+	covered := map[string]bool{}
+	info := ce.Info()
+	for _, ts := range typeSwitchesOn(info, ce.Decl.Body, ce.Param(2)) {
+		for _, cc := range caseClauses(ts.Body) {
+			for _, t := range caseTypes(info, cc) {
+				if nt := namedOf(t); nt != nil {
+					covered[nt.Obj().Name()] = true
+				}
+			}
+		}
+	}
+	hasExprChild := func(nt *types.Named) bool {
+		st, ok := nt.Underlying().(*types.Struct)
+		if !ok {
+			return false
+		}
+		for i := 0; i < st.NumFields(); i++ {
+			ft := st.Field(i).Type()
+			if sl, ok := ft.(*types.Slice); ok {
+				ft = sl.Elem()
+			}
+			if types.Identical(ft, exprT.Type()) {
+				return true
+			}
+		}
+		return false
+	}
+	n := 0
+	for _, nt := range implementers(exprT.Pkg(), iface) {
+		// type nodes (ArrayType, MapType, …) implement TypeNode; they hold no value expressions that need scopes
+		if strings.HasSuffix(nt.Obj().Name(), "Type") {
+			continue
+		}
+		if !hasExprChild(nt) {
+			continue
+		}
+		n++
+		if reason, ok := c13R16Reviewed[nt.Obj().Name()]; ok && !covered[nt.Obj().Name()] {
+			r.OK(rule, ce.Name(), "case *ast."+nt.Obj().Name()+" (reviewed: "+reason+")", c.pos(ce.Decl.Pos()), "reviewed exception")
+			continue
+		}
+		r.Check(covered[nt.Obj().Name()], rule, ce.Name(), "case *ast."+nt.Obj().Name(), c.pos(ce.Decl.Pos()),
+			"collectExpr does not descend into *ast."+nt.Obj().Name()+": a function literal or a catch handler inside such an expression is never given a scope, and the resolver dies with `interface conversion: ast.SymbolTable is nil` instead of compiling the program")
+	}
+	r.Floor(rule, n, 8, "ast expression types with expression children")
+	for _, name := range []string{"collectIfStmt", "collectWhileStmt", "collectForStmt"} {
+		fn := c.LookupFn(pkgColl, name)
+		if !r.Anchor(rule, fn != nil, "collector."+name) {
+			continue
+		}
+		r.Check(nodeCallsDeep(fn.Info(), fn.Decl.Body, ce.Obj), rule, fn.Name(), "walks its condition / range expression", c.pos(fn.Decl.Pos()),
+			"the condition (or range) of the statement is never visited by the collector: `if (get() catch e { … } 0) > 1 { }` crashes the compiler")
+	}
+}
+
+// ---- C13.R17: constant powers are bounded ----------------------------------------------------------------------
+
+func init() {
+	lateInits = append(lateInits, func() {
+		props["C13"].Quick = append(props["C13"].Quick, c13R17)
+		props["C13"].Explanation += " (R17) every exact big.Int.Exp of the compiler (no modulus) is preceded, in its case clause or function, by a test of the exponent's size that leaves before the call."
+	})
+}
+
+func c13R17(c *Ctx, r *Report) {
+	const rule = "C13.R17"
+	r.Describe(rule, "compiler packages: a call x.Exp(base, exp, nil) on *big.Int is preceded in the same clause by an if whose condition inspects exp (IsInt64 / Int64 / BitLen / Cmp) and whose body returns")
+	n := 0
+	for _, p := range c.Pkgs {
+		rel := relOf(p.PkgPath)
+		if rel == "tools" || rel == "toml" {
+			continue
+		}
+		for _, fn := range c.AllFns(rel) {
+			info := fn.Info()
+			walkWithStack(fn.Decl.Body, func(x ast.Node, stack []ast.Node) bool {
+				cl, ok := x.(*ast.CallExpr)
+				if !ok || len(cl.Args) != 3 {
+					return true
+				}
+				f := callee(info, cl)
+				if f == nil || f.Name() != "Exp" || f.Pkg() == nil || f.Pkg().Path() != "math/big" {
+					return true
+				}
+				if tv, ok := info.Types[cl.Args[2]]; !ok || !tv.IsNil() {
+					return true // modular exponentiation is bounded by the modulus
+				}
+				n++
+				expObj := objOf(info, cl.Args[1])
+				// the statements of the innermost enclosing statement list that precede the call
+				guarded := false
+				for i := len(stack) - 1; i >= 0 && !guarded; i-- {
+					var list []ast.Stmt
+					switch b := stack[i].(type) {
+					case *ast.BlockStmt:
+						list = b.List
+					case *ast.CaseClause:
+						list = b.Body
+					}
+					for _, st := range list {
+						if st.Pos() >= cl.Pos() {
+							break
+						}
+						ifs, isIf := st.(*ast.IfStmt)
+						if !isIf {
+							continue
+						}
+						inspects := false
+						ast.Inspect(ifs.Cond, func(y ast.Node) bool {
+							if c2, ok := y.(*ast.CallExpr); ok {
+								if sel, ok := ast.Unparen(c2.Fun).(*ast.SelectorExpr); ok && expObj != nil && objOf(info, sel.X) == expObj {
+									switch sel.Sel.Name {
+									case "IsInt64", "Int64", "BitLen", "Cmp", "IsUint64", "Uint64":
+										inspects = true
+									}
+								}
+							}
+							return true
+						})
+						leaves := false
+						ast.Inspect(ifs.Body, func(y ast.Node) bool {
+							if _, ok := y.(*ast.ReturnStmt); ok {
+								leaves = true
+							}
+							return true
+						})
+						if inspects && leaves {
+							guarded = true
+						}
+					}
+				}
+				r.Check(guarded, rule, fn.Name(), "exact power "+exprStr(cl)+" has a bounded exponent", c.pos(cl.Pos()),
+					"the exponent of a constant power is not bounded before big.Int.Exp computes the exact result: `let a: i64 = 2 ** 4000000000;` keeps the compiler busy for minutes (no diagnostic, gigabytes of memory)")
+				return true
+			})
+		}
+	}
+	r.Floor(rule, n, 1, "exact big.Int.Exp calls")
+}
